@@ -31,8 +31,8 @@ def enc(kind, v):
         return hx(v)
     if kind == "crystal":
         return v if isinstance(v, str) else "cNULL"
-    if kind in ("array", "out"):
-        return "-"
+    if kind in ("array", "out", "outc"):
+        return "N" if v == "N" and kind == "out" else "-"     # "N": NULL for a double* / int* out parameter (xrlComplex* results are never NULL)
     if kind == "c":
         return float(v[0]).hex() + "," + float(v[1]).hex()
     raise ValueError(kind)
